@@ -681,7 +681,7 @@ def drop_key(spec, key):
 def gen_ext(rng):
     """one case of the ops the model does not cover: (kind, specs, args)"""
     kind = rng.choice(["repeat", "repeat_interleave", "gather", "masked_select", "stack", "cat", "stack_out", "cat_out", "cat_lazy_out", "stack_lazy_out",
-                       "stack_lazy_in", "stack_lazy_in", "cat_lazy_in"])
+                       "stack_lazy_in", "stack_lazy_in", "cat_lazy_in", "stack_tc_in", "cat_tc_in"])
     wild = rng.random() < 0.2      # out-of-range dims / negative repeats
     # (repeat on a 0-d batch would be `td.repeat()` with no repeats: torch's varargs API has no such spelling)
     rank = rng.choice([0, 1, 2, 2, 3, 3, 4]) if kind in ("stack", "stack_out") else rng.choice([1, 2, 2, 3, 3, 4])
@@ -739,6 +739,18 @@ def gen_ext(rng):
         dd = d + n if d < 0 else d
         specs = [resize_dim(spec, dd, rng.choice([1, 2, 3])) if dd != sd else spec for _ in range(k)]
         return kind, specs, (d, sd, tuple(rng.randrange(3) for _ in range(k)))
+    if kind in ("stack_tc_in", "cat_tc_in"):
+        # the OPERANDS are tensorclass instances, or a MIX of tensorclass instances and plain tensordicts (the first operand decides the
+        # class of the result)
+        pattern = tuple(rng.random() < 0.65 for _ in range(k))
+        if not any(pattern):
+            pattern = (True,) + pattern[1:]
+        if kind == "stack_tc_in":
+            d = rng.randint(-n - 1, n)
+            return kind, [spec] * k, (d, pattern)
+        d = rng.randrange(-n, n)
+        dd = d + n if d < 0 else d
+        return kind, [resize_dim(spec, dd, rng.choice([0, 1, 2, 3])) for _ in range(k)], (d, pattern)
     if kind == "stack_lazy_out":
         spec = gen_tree(rng, tuple(max(x, 1) for x in bs), named=False, nested=False, allow_empty=False)
         d = rng.randint(-n - 1, n)
@@ -765,15 +777,19 @@ def ext_names(kind, names, n, args):
         if kind == "repeat_interleave" and args[1] is None and n > 1:
             return None
         return list(names)
-    if kind in ("stack", "stack_out", "stack_lazy_out", "stack_lazy_in"):
+    if kind in ("stack", "stack_out", "stack_lazy_out", "stack_lazy_in", "stack_tc_in"):
         d = args[0] + n + 1 if args[0] < 0 else args[0]
         return list(names[:d]) + [None] + list(names[d:])
-    if kind in ("cat_lazy_out", "cat_lazy_in"):
+    if kind in ("cat_lazy_out", "cat_lazy_in", "cat_tc_in"):
         return list(names)
     if kind == "masked_select":
         # the dims under the mask collapse into one unnamed dim; the remaining batch dims keep their names (as with td[mask])
         return [None] + list(names[args[0].dim():])
     return None
+
+
+class ClassMismatch(Exception):
+    """the result of stack / cat over tensorclass operands has the wrong class (the first operand decides)"""
 
 
 def oracle_ext(run, kind, specs, args, site="shape_op_ext", container=None, rng=None):
@@ -822,6 +838,15 @@ def oracle_ext(run, kind, specs, args, site="shape_op_ext", container=None, rng=
                 return f(list(objs), args[0])
             ops = [build_lazy_operand(sp_, args[1], 100000 * j, args[2][j]) for j, sp_ in enumerate(specs)]
             r = f(ops, args[0])
+            return densify(r)
+        if kind in ("stack_tc_in", "cat_tc_in"):
+            if isinstance(x, torch.Tensor):
+                return f(list(objs), args[0])
+            ops = [tc_class()._from_tensordict(o) if is_tc else o for o, is_tc in zip(objs, args[1])]
+            r = f(ops, args[0])
+            from tensordict import is_tensorclass
+            if bool(is_tensorclass(r)) != bool(args[1][0]):
+                raise ClassMismatch(f"the result is a {type(r).__name__} but the first operand is a {type(ops[0]).__name__}")
             return densify(r)
         if kind == "stack_lazy_out":
             if isinstance(x, torch.Tensor):
@@ -953,7 +978,7 @@ def oracle_ext(run, kind, specs, args, site="shape_op_ext", container=None, rng=
 
 
 def check_ext_entries(res, specs, n, kind, args, ref, prefix):
-    multi = kind in ("stack", "cat", "stack_out", "cat_out", "cat_lazy_out", "stack_lazy_out", "stack_lazy_in", "cat_lazy_in")
+    multi = kind in ("stack", "cat", "stack_out", "cat_out", "cat_lazy_out", "stack_lazy_out", "stack_lazy_in", "cat_lazy_in", "stack_tc_in", "cat_tc_in")
     for j, (k, e) in enumerate(specs[0][3]):
         v = res.get(k)
         es = [s[3][j][1] for s in specs]
@@ -1066,7 +1091,7 @@ def densify(x):
 LAZY_OPS = ("permute", "transpose", "squeeze", "unsqueeze", "unbind", "split", "chunk", "splitlist", "flatten", "unflatten", "reshape", "expand")
 
 
-def run_container(run, spec, op, kind, rng, malformed=False, stack_dim=None):
+def run_container(run, spec, op, kind, rng, malformed=False, stack_dim=None, valid_call=False):
     """the same case on another container kind (oracle only).  A tensorclass delegates to the TensorDict code (same site,
     so the same known findings apply).  Lazy stacks have their own implementation (_lazy.py): only the ops listed in
     LAZY_OPS with well-formed arguments are judged (`view` is refused by lazy stacks by design: "Call `reshape` instead");
@@ -1085,6 +1110,20 @@ def run_container(run, spec, op, kind, rng, malformed=False, stack_dim=None):
             out += [c.stack_dim, [[list(m.batch_size), [None if x is None else str(x) for x in m.names], sorted(map(str, m.keys(True, True)))] for m in c.tensordicts]]
         return out
     meta_before = cont_meta()
+    # the lazy view family builds its result out of pieces of the source; when a piece IS the source or one of its members (`flatten(d, d)`:
+    # one dim; `unflatten(d, (1, …))`: `chunk(1)` returns the stack itself) the names assigned to the result afterwards land in the source
+    # (known finding C02-lazy-viewfamily-renames-source)
+    nsp = len(sp[1])
+    single = ""
+    if kind == "lazy" and op[0] == "flatten" and nsp and -nsp <= op[1] < nsp and -nsp <= op[2] < nsp and op[1] % nsp == op[2] % nsp:
+        single = "single-dim:"
+    if kind == "lazy" and op[0] == "unflatten" and nsp and -nsp <= op[1] < nsp and len(op[2]) >= 2:
+        first = op[2][0]
+        if first == -1:
+            rest = numel([x for x in op[2][1:]])
+            first = sp[1][op[1] % nsp] // rest if rest > 0 else -1
+        if first == 1:
+            single = "size-one-first:"
     # a tensorclass is also called through `torch.<op>(tc, …)` and with keywords (a lazy stack through the method, as in the grid)
     spelling = rng.choice([0, 0, 3, 4, 5]) if kind == "tc" else 0
     try:
@@ -1093,7 +1132,7 @@ def run_container(run, spec, op, kind, rng, malformed=False, stack_dim=None):
     except Exception as e:  # noqa: BLE001
         slow_is_infra(e)
         if not isinstance(e, TimeoutError) and cont_meta() != meta_before:
-            run.oracle_fail(site, {"op": list(op), "td": spec_sx(sp), "container": kind}, "the source container was modified by a refused op", f"{op[0]}:source-modified")
+            run.oracle_fail(site, {"op": list(op), "td": spec_sx(sp), "container": kind}, "the source container was modified by a refused op", f"{single}{op[0]}:source-modified")
             return
         impl, raw = ["err", err_class(e)], e
         # a container kind that does not support an op / argument may refuse it: only wrong *results* are judged,
@@ -1113,14 +1152,17 @@ def run_container(run, spec, op, kind, rng, malformed=False, stack_dim=None):
             # a tensorclass delegates to the TensorDict code: a rejection is judged like the dense one (rejects iff torch rejects, modulo
             # the documented stricter rejections)
             oracle(run, sp, cont._tensordict, op, impl, raw, site=site)
+        elif valid_call:
+            # the argument grid: every generated call is valid for a tensor of that batch shape, and none of these ops is refused by design
+            run.oracle_fail(site, {"op": list(op), "td": spec_sx(sp), "container": kind, "stack_dim": cont._c02_stack_dim},
+                            f"lazy stack refuses a valid call: {type(e).__name__}: {str(e)[:100]}", f"lazy-grid:{single}{op[0]}:rejects-valid:{type(e).__name__}")
         else:
-            # a lazy stack refuses several ops / arguments by design (`view`, heterogeneous results): counted, not judged — EXCEPT in the
-            # argument grid below, where every generated call is valid for a dense tensordict of that batch size
+            # a lazy stack refuses several ops / arguments by design (`view`, heterogeneous results): counted, not judged
             run.count(site + ".refused", op[0] + ":" + type(e).__name__)
         return
     case = {"op": list(op), "td": spec_sx(sp), "container": kind}
     if cont_meta() != meta_before:
-        run.oracle_fail(site, case, f"the source container was modified by the (out-of-place) op: {cont_meta()} before: {meta_before}"[:500], f"{op[0]}:source-modified")
+        run.oracle_fail(site, case, f"the source container was modified by the (out-of-place) op: {cont_meta()} before: {meta_before}"[:500], f"{single}{op[0]}:source-modified")
         return
     prefix = ""
     if kind == "lazy":
@@ -1137,7 +1179,7 @@ def run_container(run, spec, op, kind, rng, malformed=False, stack_dim=None):
             if any(x == 0 for x in sp[1]):
                 run.count(site + ".not_judged", "view family on a zero-sized lazy stack")
                 return
-            prefix = "lazy-viewfamily:"
+            prefix = "lazy-viewfamily:" + single
         if op[0] == "expand" and any(x == 0 for x in op[1]):
             prefix = "empty-stack-result:"
         if op[0] in ("split", "splitlist", "chunk"):
